@@ -16,6 +16,13 @@ Theorem C12_width_defined_iff_nonvanishing :
   end.
 Proof. exact edw_marker_defined. Qed.
 
+(* numbers inserted into EnergyDependentWidth BEFORE evaluate() (five instantiations in which s coincides with the
+   radius and/or L, six phase-space factors): the tree is the symbolic tree at those values *)
+Theorem C12_width_numbers_before_evaluate : Forall numeric_first_ok gen_edw_numeric_first.
+Proof. exact edw_numeric_first. Qed.
+Theorem C12_width_numbers_before_evaluate_covered : length gen_edw_numeric_first = 30%nat.
+Proof. reflexivity. Qed.
+
 (* Blatt-Weisskopf, integer L = 0..10 (the lambdified fast path): defined for z>=0, 1 at z=1,
    bounded, z^L times a continuous residual that is positive at 0, equal to the
    Hankel-function definition for z>0. *)
@@ -37,6 +44,8 @@ Proof. exact builder_defaults. Qed.
 
 Print Assumptions C12_width_at_pole.
 Print Assumptions C12_width_defined_iff_nonvanishing.
+Print Assumptions C12_width_numbers_before_evaluate.
+Print Assumptions C12_width_numbers_before_evaluate_covered.
 Print Assumptions C12_blatt_weisskopf.
 Print Assumptions C12_blatt_weisskopf_range.
 Print Assumptions C12_hankel_norm_at_one.
